@@ -116,8 +116,7 @@ proof fn lemma_fmap<T>(s: Seq<T>, p: spec_fn(T) -> bool)
 }
 // a stored record as the tokeniser leaves it (C15) plus the size bounds the scoring contracts need
 pub open spec fn record_ok(r: &Record) -> bool {
-    r.rating <= 0x7fff_ffff_ffff_ffff
-    && r.title.words@.len() <= 0x10_0000 && r.title.chars@.len() <= 0x4000_0000 && r.title.source@.len() == r.title.chars@.len() && r.title.classes@.len() == r.title.chars@.len()
+    r.title.words@.len() <= 0x10_0000 && r.title.chars@.len() <= 0x4000_0000 && r.title.source@.len() == r.title.chars@.len() && r.title.classes@.len() == r.title.chars@.len()
     && (forall|k: int| 0 <= k < r.title.words@.len() ==> (#[trigger] r.title.words@[k]).offset == k && r.title.words@[k].slice.0 < r.title.words@[k].slice.1 && r.title.words@[k].slice.1 <= r.title.chars@.len()
             && 1 <= r.title.words@[k].stem <= r.title.words@[k].slice.1 - r.title.words@[k].slice.0 && r.title.words@[k].slice.1 - r.title.words@[k].slice.0 < 0x8_0000)
     && (forall|k: int, m: int| 0 <= k < m < r.title.words@.len() ==> (#[trigger] r.title.words@[k]).slice.1 <= (#[trigger] r.title.words@[m]).slice.0)
@@ -218,8 +217,8 @@ pub open spec fn rank_ok(cands: Seq<usize>, pos: Seq<int>, recs: Seq<Record>, qu
 // the score slots of a hit without matches: everything but the rating, the word count and the character count is a constant
 proof fn lemma_empty_slots(h: Hit)
     requires slots_ok(h), h.rmatches@.len() == 0,
-    ensures h.scores.0[0] == 0, h.scores.0[1] == 0, h.scores.0[2] == 0, h.scores.0[3] == 0, h.scores.0[4] == 1, h.scores.0[5] == 0, h.rating <= 0x7fff_ffff_ffff_ffff ==> h.scores.0[6] == h.rating,
-{ lemma_rslot(h.rating, h.rating); }
+    ensures h.scores.0[0] == 0, h.scores.0[1] == 0, h.scores.0[2] == 0, h.scores.0[3] == 0, h.scores.0[4] == 1, h.scores.0[5] == 0, h.scores.0[6] == rslot(h.rating),
+{ }
 proof fn lemma_search_c12(st: &Store, query: &TextRef, ixs: Seq<usize>, hs: Seq<Hit>, pos: Seq<int>, sel: Seq<Hit>)
     requires st.srch_ok(), cand_src(ixs, st, query), trace_ok(ixs, hs, st.records@, query), query.words@.len() == 0,
         pos.len() == sel.len(), forall|k: int| 0 <= k < sel.len() ==> 0 <= #[trigger] pos[k] < hs.len() && sel[k] == hs[pos[k]],
@@ -232,7 +231,7 @@ proof fn lemma_search_c12(st: &Store, query: &TextRef, ixs: Seq<usize>, hs: Seq<
         assert(ls_le::<Hit, CmpHits>(CmpHits, ha, hb));
         hitx::ls_le_hits(ha, hb);
         assert(scored(hs[pos[a]], &recs[ixs[pos[a]] as int], query)); assert(scored(hs[pos[b]], &recs[ixs[pos[b]] as int], query));
-        lemma_empty_slots(ha); lemma_empty_slots(hb);
+        lemma_empty_slots(ha); lemma_empty_slots(hb); lemma_rslot(ha.rating, hb.rating); lemma_rslot(hb.rating, ha.rating);
         let x = ha.scores.0; let y = hb.scores.0;
         if !(forall|m: int| 0 <= m < 9 ==> x[m] == y[m]) {
             let k = choose|k: int| 0 <= k < 9 && (forall|m: int| 0 <= m < k ==> x[m] == y[m]) && #[trigger] x[k] > y[k];
